@@ -47,6 +47,8 @@ type Case struct {
 	// these option bits (plus 8 = an authentication callback that accepts everything): the judged
 	// validation must go as on a fresh document
 	PreOpts int `json:"pre_opts,omitempty"`
+	// BodyStyle: "" (a strings.Reader: length known, GetBody set) | reader | chunked
+	BodyStyle string `json:"body_style,omitempty"`
 }
 
 func TestMain(m *testing.M) { h.Main(m, "C07") }
@@ -200,6 +202,14 @@ func check(c Case) (o h.Outcome) {
 	if body != "" {
 		req, _ = http.NewRequest("POST", "http://x/r?"+q.Encode(), strings.NewReader(body))
 		req.Header.Set("Content-Type", "application/json")
+		switch c.BodyStyle {
+		case "reader":
+			// a body given as a plain reader: net/http leaves ContentLength at 0 and GetBody nil
+			req.Body, req.ContentLength, req.GetBody = io.NopCloser(io.MultiReader(strings.NewReader(body))), 0, nil
+		case "chunked":
+			// what a server sees for a chunked upload: length unknown
+			req.Body, req.ContentLength, req.GetBody = io.NopCloser(io.MultiReader(strings.NewReader(body))), -1, nil
+		}
 	} else {
 		req, _ = http.NewRequest("POST", "http://x/r?"+q.Encode(), nil)
 	}
@@ -518,5 +528,6 @@ func gen(t *rapid.T) Case {
 	if rapid.IntRange(0, 2).Draw(t, "prelude") == 0 {
 		c.PreOpts = rapid.IntRange(1, 15).Draw(t, "preopts")
 	}
+	c.BodyStyle = rapid.SampledFrom([]string{"", "", "reader", "chunked"}).Draw(t, "bodystyle")
 	return c
 }
